@@ -1,6 +1,8 @@
 package binaryheap
 
 import (
+	"strings"
+
 	"encoding/json"
 	"github.com/emirpasic/gods/v2/containers"
 	"github.com/emirpasic/gods/v2/lists/arraylist"
@@ -58,6 +60,7 @@ type VHeapLike struct {
 	Empty  func() bool
 	String func() string
 	Heap   *Heap[int]
+	Name   string
 }
 
 // VHeapStep: one operation on an arbitrary heap (C06): heap order kept, the returned element is one that no
@@ -125,7 +128,10 @@ func VHeapStep(q VHeapLike, pre []int) {
 			v.Assert(vals[0] == p, "C06:values-first-is-peek")
 		}
 	case VOpString:
-		_ = q.String()
+		v.BeginOp(true, q.Heap)
+		str := q.String()
+		v.EndOp()
+		v.Assert(strings.HasPrefix(str, q.Name), "C15:string-begins-with-container-name")
 	}
 	post := VInv(q.Heap)
 	v.Assert(vCount(post, probe) == vCount(pre, probe)+delta, "C06:multiset")
@@ -137,7 +143,7 @@ func VHeapStep(q VHeapLike, pre []int) {
 
 func VHHeapStep() {
 	h, pre := VGHeap()
-	VHeapStep(VHeapLike{Push: h.Push, Pop: h.Pop, Peek: h.Peek, Clear: h.Clear, Values: h.Values, Size: h.Size, Empty: h.Empty, String: h.String, Heap: h}, pre)
+	VHeapStep(VHeapLike{Push: h.Push, Pop: h.Pop, Peek: h.Peek, Clear: h.Clear, Values: h.Values, Size: h.Size, Empty: h.Empty, String: h.String, Heap: h, Name: "BinaryHeap"}, pre)
 }
 
 // VHIter: the heap iterator is a cursor over Values() (each level sorted through a temporary heap).
